@@ -324,7 +324,15 @@ def record(fails, cfg, form, x, g, phase, only_reused=False):
 
 def nasty():
     """~300 handcrafted inputs: unclosed constructs, deep nesting (<= 100 levels), long runs."""
-    s = ['', '\n', '\n\n\n', ' ', '\t', ' \n \n', '>', '> ', '>\n', '>>', '> >', '>\t', ' >', '   >', '    >',
+    # non-ASCII spaces (the property's alphabet names them) at the start of lines, after blanks, in
+    # continuation position of list items / quotes, after markers, and as whole lines
+    nbsp = []
+    for sp in ('\xa0', '\u2003', '\u3000', '\u200b', '\x0b', '\x0c', '\x1f', '\x85', '\u2028'):
+        nbsp += [sp, sp + '\n', ' ' + sp + 'a', '- item\n' + sp + sp + 'continued\n', '- a\n\n' + sp + '\n- b\n',
+                 '- a\n  ' + sp + 'b\n', '1. a\n ' + sp + '\n', '> q\n' + sp + 'lazy\n', '> ' + sp + '\n', '-' + sp + 'a', '#' + sp + 'h',
+                 '```' + sp + '\nc\n```', '|a|\n|-|\n' + sp + '|b|', sp + '- a', sp + '> a', sp + '# a', '[a]:' + sp + '/u\n\n[a]',
+                 'a' + sp + '\n===', '    ' + sp + '\n', '- > ' + sp + '\n  ' + sp + 'x', '*' + sp + 'a*', '`' + sp + '`']
+    s = nbsp + ['', '\n', '\n\n\n', ' ', '\t', ' \n \n', '>', '> ', '>\n', '>>', '> >', '>\t', ' >', '   >', '    >',
          '-', '- ', '- \n', '-\n', '-\t', '+', '*', '1.', '1)', '1. ', '1.\n', '123456789.', '1234567890.', '.', ')',
          '. a', ') a', '- -', '- - -', '* * *', '- *', '- >', '> -', '> - >', '>-', '-\n-', '-\n\n-', '- \n- \n', '-\n a',
          '-\n\n a', '- \n\n  a', '|', '||', '|\n-', '|\n|-', '|-\n|-', 'a|b\n-|-', 'a|b\n-|-\n', 'a|b\n-|-\nc', '|a|\n|-|\n|',
